@@ -863,6 +863,7 @@ var (
 	RegistryHeaps = func(r *core.Run, col *core.Collector) {}
 	C13Identities = func(r *core.Run) {}
 	C05Types      = func(r *core.Run) {}
+	C05Identities = func(r *core.Run) {}
 )
 
 func init() {
